@@ -124,7 +124,9 @@
   (g)->size, (g)->edgeNumber, (g)->adjacencyList.n, (g)->adjacencyList.r,     \
       (g)->edgeLabels.s, *(g)->adjacencyList.rowP, *(g)->adjacencyList.rowQ,  \
       *(g)->edgeLabels.valPQ, *(g)->edgeLabels.valQP, bg_exc, BG_SCRATCH_(L)
-#define D_FRAME_CONST(L) bg_exc, BG_SCRATCH_(L)
+/* graph-const functions leave the caller's ghost frontier alone */
+#define BG_SCRATCH_NF_(L) bg_scratch_row, bg_scratch_val_##L, bg_cur_adj
+#define D_FRAME_CONST(L) bg_exc, BG_SCRATCH_NF_(L)
 
 #define BG_VAL_CLEAN(L) (!bg_scratch_val_##L.valid && !bg_scratch_val_##L.out)
 #define BG_LIFT_ENF(c) (c)
@@ -248,19 +250,33 @@
 /* it: an lvalue of struct L*G_<L>_Edges_EIt; g = the directed base object it walks */
 #define EIT_END_OF(g) ((g)->size == 0 ? (VertexIndex)0 : (VertexIndex)((g)->size - 1))
 #define EIT_ROW(it, g) D_ROW_C(g, (it).vertex)
-/* a valid position: vertex in range, cursor inside the row of that vertex (empty graph: the only
-   position is (0, value-initialised cursor)) */
+/* a valid position: vertex in range; the cursor walks the row of that vertex; for an observed row the
+   entries passed plus the entries ahead are exactly the row (empty graph: the only position is
+   (0, value-initialised cursor)) */
+#define IT_SPLIT_OF(it_, c_)                                                  \
+  ((it_).p.len + (it_).r.len == (c_).len && (it_).p.nP + (it_).r.nP == (c_).nP && \
+   (it_).p.nQ + (it_).r.nQ == (c_).nQ && (it_).p.up + (it_).r.up == (c_).up)
+#define IT_P_AX(it_)                                                          \
+  ((it_).p.len < BG_CAP && (it_).r.len < BG_CAP && (it_).p.len + (it_).r.len < BG_CAP && (it_).p.nP <= (it_).p.len && (it_).p.nQ <= (it_).p.len && \
+   (it_).p.up <= (it_).p.len && (G_P != G_Q || (it_).p.nQ == 0))
 #define EIT_OK(it, g)                                                         \
   ((it).endVertex == EIT_END_OF(g) && (it).vertex <= (it).endVertex &&        \
    ((g)->size == 0                                                            \
-        ? ((it).neighbour.r.len == 0 && !(it).neighbour.poisoned && (it).neighbour.idx == BG_IT_SINGULAR_IDX) \
-        : (D_ROW_LOADED_C(g, (it).vertex) && IT_IN_ROW((it).neighbour, *EIT_ROW(it, g)))))
-/* the frontier follows this iterator and its rank counts the entries before the cursor */
+        ? ((it).neighbour.r.len == 0 && !(it).neighbour.poisoned && (it).neighbour.idx == BG_IT_SINGULAR_IDX && (it).neighbour.p.len == 0) \
+        : (!(it).neighbour.poisoned && (it).neighbour.idx == (bg_size)(it).vertex && \
+           (it).neighbour.bound <= (g)->size && BG_CNT_AX((it).neighbour.r, (it).neighbour.idx) && \
+           IT_P_AX((it).neighbour) && BG_IT_CUR_OK((it).neighbour) && \
+           ((bg_size)(it).vertex != G_P || IT_SPLIT_OF((it).neighbour, (g)->adjacencyList.rowP->c)) && \
+           ((bg_size)(it).vertex != G_Q || G_P == G_Q || IT_SPLIT_OF((it).neighbour, (g)->adjacencyList.rowQ->c)))))
+/* the frontier follows this iterator; rank counts the positions before it */
 #define EIT_TRACKED(it, g)                                                    \
   (bg_ghost_frontier.a == &(g)->adjacencyList &&                              \
-   ((g)->size == 0 ? (bg_ghost_frontier.F == 0 && bg_ghost_frontier.rank == 0 && bg_ghost_frontier.below == 0) \
+   ((g)->size == 0 ? (bg_ghost_frontier.F == 0 && bg_ghost_frontier.rank == 0 && bg_ghost_frontier.below == 0 && bg_ghost_frontier.rankQ == 0 && bg_ghost_frontier.belowInQ == 0) \
                    : (bg_ghost_frontier.F == (bg_size)(it).vertex &&          \
-                      bg_ghost_frontier.rank == bg_ghost_frontier.below + (EIT_ROW(it, g)->c.len - (it).neighbour.r.len))))
+                      bg_ghost_frontier.rank == bg_ghost_frontier.below + (it).neighbour.p.len && \
+                      bg_ghost_frontier.rankQ == bg_ghost_frontier.belowInQ + C_NQ((it).neighbour.p))))
+/* copies of G_Q counted by a counter set */
+#define C_NQ(c) (G_P == G_Q ? (c).nP : (c).nQ)
 #define EIT_SAME(a, b)                                                        \
   ((a).vertex == (b).vertex && (a).endVertex == (b).endVertex && (a).graph == (b).graph && \
    (a).neighbour.r.len == (b).neighbour.r.len && (a).neighbour.r.nP == (b).neighbour.r.nP && \
